@@ -29,7 +29,12 @@ R3 assembly order in `_recover` (CFG dominance, helpers extracted from `_recover
    under an emptiness test; the retry delay is slept only when configured.
 R4 stateful steps restore their state: ScatterStep / LoopCombinatorStep / DefaultTransformer define a
    non-trivial `restore` (LoopCombinatorStep forwards to `combinator.restore`, LoopCombinator
-   rebuilds `iteration_map`; ScatterStep installs a FilterTokenPort); `restore` is given the
+   rebuilds `iteration_map`: every store `self.iteration_map[K] = V` of `LoopCombinator.restore` takes K from the
+   first member (prefix tag) and the new counter V from the second member (tag of the last completed iteration)
+   of the (prefix, iteration) pairs in `from_tags` - def-use through loop / comprehension targets over
+   `.values()` / `.items()`, `pair[i]`, `from_tags[k][i]`, local aliases; reads of the map itself do not count
+   (seeded change C16b-2: a counter parsed from the prefix re-numbers the resumed iterations);
+   ScatterStep installs a FilterTokenPort); `restore` is given the
    *unavailable* tokens while `_inject_tokens` injects the *available* ones (the selection is a comprehension
    filter or the dominating test of the `append` of the equivalent loop; conditional expression or if statement);
    `_inject_tokens`
@@ -756,6 +761,98 @@ def _feeds(f, name):
             out.append((c, [x for i in g.node_containing(c) for x in path_facts(g, i)]))
     return out
 
+# ---- LoopCombinator.restore: which member of the (prefix, iteration) pair feeds the key / the counter
+
+
+def _target_path(t: ast.AST, name: str, path: tuple = ()):
+    """Unpacking path of `name` inside assignment / loop target `t` (() = bound as a whole), None when not bound."""
+    if isinstance(t, ast.Name):
+        return path if t.id == name else None
+    if isinstance(t, (ast.Tuple, ast.List)):
+        for i, e in enumerate(t.elts):
+            if isinstance(e, ast.Starred):
+                continue
+            r = _target_path(e, name, path + (i,))
+            if r is not None:
+                return r
+    return None
+
+
+_SEQ_WRAP = ("list", "tuple", "sorted", "reversed", "iter", "set", "frozenset")
+
+
+def _pair_member(f, e: ast.AST, param: str, seen: frozenset = frozenset()):
+    """What `e` denotes relative to the mapping parameter `param` (name -> pair of tags): 'pair' one of its values,
+    0 / 1 the first / second member of a value, None anything else.  Loop / comprehension targets over
+    `param.values()` / `param.items()` (nested unpacking), `param[k]` / `param.get(k)`, constant subscripts of a pair
+    and plain local aliases are followed."""
+    e = strip(e)
+    if isinstance(e, ast.Subscript):
+        if isinstance(e.value, ast.Name) and e.value.id == param:
+            return "pair"
+        if _pair_member(f, e.value, param, seen) == "pair":
+            i = strip(e.slice)
+            if isinstance(i, ast.UnaryOp) and isinstance(i.op, ast.USub) and isinstance(i.operand, ast.Constant) and i.operand.value in (1, 2):
+                return 2 - i.operand.value
+            if isinstance(i, ast.Constant) and i.value in (0, 1) and not isinstance(i.value, bool):
+                return i.value
+        return None
+    if isinstance(e, ast.Call) and isinstance(e.func, ast.Attribute) and e.func.attr == "get" and isinstance(e.func.value, ast.Name) and e.func.value.id == param:
+        return "pair"
+    if not isinstance(e, ast.Name) or e.id in seen or e.id == param:
+        return None
+    kinds = []
+    for d in defs_of(f, e.id):
+        if d.kind in ("for", "comp") and d.stmt is not None:
+            path = _target_path(d.stmt.target, e.id)
+            its = [strip(o) for o in origins(f, d.value)]
+            while its and all(isinstance(o, ast.Call) and isinstance(o.func, ast.Name) and o.func.id in _SEQ_WRAP and len(o.args) == 1 and not any(
+                    k.arg != "reverse" for k in o.keywords) for o in its):
+                its = [strip(o.args[0]) for o in its]
+            k = None
+            for o in its:
+                via = o.func.attr if isinstance(o, ast.Call) and isinstance(o.func, ast.Attribute) and isinstance(o.func.value, ast.Name) and o.func.value.id == param else None
+                if via == "items" and path is not None and path[:1] == (1,):
+                    path_ = path[1:]
+                elif via == "values" and path is not None:
+                    path_ = path
+                else:
+                    path_ = None
+                k = None if path_ is None else ("pair" if path_ == () else (path_[0] if len(path_) == 1 and path_[0] in (0, 1) else None))
+            kinds.append(k)
+        elif d.kind in ("assign", "walrus") and d.value is not None:
+            if d.kind == "assign" and d.index is not None:
+                tg = [t for t in getattr(d.stmt, "targets", [getattr(d.stmt, "target", None)]) if t is not None]
+                path = next((r for t in tg for r in [_target_path(t, e.id)] if r is not None), None)
+                whole = _pair_member(f, d.value, param, seen | {e.id})
+                kinds.append(path[0] if whole == "pair" and path is not None and len(path) == 1 and path[0] in (0, 1) else None)
+            else:
+                kinds.append(_pair_member(f, d.value, param, seen | {e.id}))
+        else:
+            kinds.append(None)
+    return kinds[0] if kinds and all(k == kinds[0] for k in kinds) else None
+
+
+def _pair_deps(f, e: ast.AST, param: str, skip, depth: int = 4, seen: frozenset = frozenset()) -> set:
+    """Members (0 / 1 / 'pair' = a whole pair, not indexed) of the values of `param` that expression `e` is computed
+    from; sub-expressions accepted by `skip` (reads of the map being restored) do not count; plain locals are
+    followed through their assignments."""
+    out: set = set()
+    if skip(e):
+        return out
+    k = _pair_member(f, e, param)
+    if k is not None:
+        return {k}
+    if isinstance(e, ast.Name):
+        if depth > 0 and e.id not in seen:
+            for d in defs_of(f, e.id):
+                if d.kind in ("assign", "walrus", "aug") and d.value is not None:
+                    out |= _pair_deps(f, d.value, param, skip, depth - 1, seen | {e.id})
+        return out
+    for c in ast.iter_child_nodes(e):
+        out |= _pair_deps(f, c, param, skip, depth, seen)
+    return out
+
 
 def r4(ctx):
     p = ctx.prog
@@ -790,6 +887,56 @@ def r4(ctx):
     ctx.ob("R4", "LoopCombinator.restore rebuilds iteration_map", bool(writes), qualname=lc.qualname, func=m,
            node=(m.node if m else lc.node), instance="loop:iteration_map",
            message="LoopCombinator.restore does not write iteration_map: resumed iterations are re-numbered from 0")
+    # the restored counter of a prefix is the last component of the *iteration* tag of the (prefix, iteration) pair
+    if m is not None and writes:
+        ctx.require(len(m.params) >= 2, "C16.R4: LoopCombinator.restore lost its from_tags parameter")
+        ftp = m.params[1]
+
+        def map_read(x):  # the value already recorded (`self.iteration_map.get(k, d)` -> only d counts, `self.iteration_map[k]`)
+            return isinstance(x, ast.Subscript) and unparse(x.value) == "self.iteration_map"
+
+        def fresh(x):
+            """Sub-expressions of a stored value that do not come from the map itself."""
+            if map_read(x):
+                return []
+            if isinstance(x, ast.Call) and isinstance(x.func, ast.Attribute) and unparse(x.func.value) == "self.iteration_map":
+                return [y for a in x.args[1:] for y in fresh(a)] + [y for k in x.keywords for y in fresh(k.value)]
+            return [x]
+
+        stores = []  # (statement, key expression, value expression)
+        for n in m.body_nodes():
+            if isinstance(n, (ast.Assign, ast.AugAssign)):
+                for t in (n.targets if isinstance(n, ast.Assign) else [n.target]):
+                    if isinstance(t, ast.Subscript) and unparse(t.value) == "self.iteration_map":
+                        stores.append((n, t.slice, n.value))
+        for n, key, val in stores:
+            kd = _pair_deps(m, key, ftp, lambda x: False)
+            vd: set = set()
+            todo, leaves = [val], []
+            while todo:
+                x = todo.pop()
+                fr = fresh(x)
+                if fr == [x]:
+                    # descend: a map read may sit deeper (max(self.iteration_map.get(k, d), d))
+                    if any(map_read(y) or (isinstance(y, ast.Call) and isinstance(y.func, ast.Attribute) and unparse(y.func.value) == "self.iteration_map")
+                           for y in ast.walk(x) if y is not x):
+                        todo.extend(ast.iter_child_nodes(x))
+                    else:
+                        leaves.append(x)
+                else:
+                    todo.extend(fr)
+            for x in leaves:
+                vd |= _pair_deps(m, x, ftp, lambda y: False)
+            key_ok = 0 in kd or "pair" in kd or (1 in kd and mentions(m, key, lambda y: isinstance(y, ast.Slice), depth=3))
+            val_ok = 1 in vd or "pair" in vd
+            comp = sorted({unparse(o)[:70] for x in leaves for o in origins(m, x)})
+            src = {0: "the prefix tag (first member)", 1: "the iteration tag (second member)", "pair": "the whole pair"}
+            ctx.ob("R4", "LoopCombinator.restore: the counter restored for a prefix is taken from the iteration tag of the (prefix, iteration) pair, the key from the prefix",
+                   key_ok and val_ok, func=m, node=n, instance="loop:iteration-source",
+                   message=f"`{unparse(n)[:110]}`: the key `{unparse(key)}` is computed from {sorted(src[k] for k in kd) or 'nothing of from_tags'}, "
+                   f"the restored counter `{'`, `'.join(comp)}` from {sorted(src[k] for k in vd) or 'nothing of from_tags'} - the counter of a resumed loop must be the last component of the "
+                   "tag of the last completed iteration (second member), recorded under the prefix (first member); otherwise resumed iterations are re-numbered "
+                   "and collide with the iterations already executed")
     # ScatterStep.restore installs a filtering port
     sc = p.cls(f"{STEP}.ScatterStep").methods.get("restore")
     if sc is None:
@@ -1270,6 +1417,7 @@ FLOORS = {"R1": 13, "R2": 16, "R3": 24, "R4": 15, "R5": 3, "R6": 20, "R7": 3, "R
 _W = f"{DECORATOR}.<locals>.wrapper"
 _REC = f"{RFM}._recover"
 _UPD = f"{RFM}._update_request"
+_LCR = "streamflow.workflow.combinator.LoopCombinator.restore"
 
 _ON_TOKENS = ("{port.name: [mapper.token_instances[token_id] for token_id in mapper.port_tokens[port.name] if not mapper.token_availability[token_id]] "
               "for port in step.get_output_ports().values() if port.name in mapper.port_tokens.keys()}")
@@ -1325,6 +1473,13 @@ VARIANTS = [
       "port=workflow.ports[port.name], boundary_tags=[get_tag(failed_job.inputs.values())]", "port=workflow.ports[port.name], boundary_tags=[t.tag for t in token_list]", "R4"),
     V("LoopCombinatorStep.restore forgets the combinator", STEP_FILE, f"{STEP}.LoopCombinatorStep.restore", "await self.combinator.restore(from_tags)", "pass", "R4"),
     V("ScatterStep inherits the no-op restore", STEP_FILE, f"{STEP}.ScatterStep", "async def restore(self, on_tokens", "async def _restore_unused(self, on_tokens", "R4"),
+    V("LoopCombinator.restore parses the counter from the prefix tag (seeded C16b-2)", COMB_FILE, _LCR, "int(iteration.split('.')[-1])", "int(prefix.split('.')[-1])", "R4"),
+    V("LoopCombinator.restore unpacks the pair in the wrong order", COMB_FILE, _LCR, "for prefix, iteration in from_tags.values():", "for iteration, prefix in from_tags.values():", "R4"),
+    V("LoopCombinator.restore records the counter under the iteration tag", COMB_FILE, _LCR, "self.iteration_map[prefix] = max(", "self.iteration_map[iteration] = max(", "R4"),
+    V("LoopCombinator.restore indexes the pair: counter from member 0", COMB_FILE, _LCR,
+      "    for prefix, iteration in from_tags.values():\n        iteration_num = int(iteration.split('.')[-1])",
+      "    for pair in from_tags.values():\n        prefix = pair[0]\n        iteration_num = int(pair[0].split('.')[-1])", "R4"),
+    V("LoopCombinator.restore restores every counter to a constant", COMB_FILE, _LCR, "int(iteration.split('.')[-1])", "0", "R4"),
     V("LoopCombinator.restore is a no-op", COMB_FILE, "streamflow.workflow.combinator.LoopCombinator.restore",
       "self.iteration_map[prefix] = max(self.iteration_map.get(prefix, iteration_num), iteration_num)", "pass", "R4"),
     V("provenance search forgets the job's inputs", FM_FILE, _REC, "inputs=[*failed_job.inputs.values(), *(p.token_list[0]", "inputs=[*(p.token_list[0]", "R3"),
@@ -1405,6 +1560,17 @@ VARIANTS = [
       "    for step in new_workflow.steps.values():\n        await step.restore(on_tokens=" + _ON_TOKENS + ")",
       "    await asyncio.gather(*(asyncio.create_task(step.restore(on_tokens=" + _ON_TOKENS + ")) for step in new_workflow.steps.values()))", None),
     V("rename the recovery workflow local", FM_FILE, _REC, "new_workflow", "recovery_wf", None, count=9),
+    V("LoopCombinator.restore: pair unpacked in the body", COMB_FILE, _LCR, "    for prefix, iteration in from_tags.values():\n",
+      "    for pair in from_tags.values():\n        prefix, iteration = pair\n", None),
+    V("LoopCombinator.restore: pair indexed", COMB_FILE, _LCR, "    for prefix, iteration in from_tags.values():\n        iteration_num = int(iteration.split('.')[-1])",
+      "    for pair in from_tags.values():\n        prefix = pair[0]\n        last = pair[-1]\n        iteration_num = int(last.rsplit('.', 1)[-1])", None),
+    V("LoopCombinator.restore: iterates the items", COMB_FILE, _LCR, "    for prefix, iteration in from_tags.values():\n",
+      "    for _port, (prefix, iteration) in from_tags.items():\n", None),
+    V("LoopCombinator.restore: iterates the keys", COMB_FILE, _LCR, "    for prefix, iteration in from_tags.values():\n",
+      "    for port_name in from_tags:\n        prefix = from_tags[port_name][0]\n        iteration = from_tags[port_name][1]\n", None),
+    V("LoopCombinator.restore: counter without temporaries, explicit comparison", COMB_FILE, _LCR,
+      "        iteration_num = int(iteration.split('.')[-1])\n        self.iteration_map[prefix] = max(self.iteration_map.get(prefix, iteration_num), iteration_num)",
+      "        if prefix not in self.iteration_map or self.iteration_map[prefix] < int(iteration.split('.')[-1]):\n            self.iteration_map[prefix] = int(iteration.split('.')[-1])", None),
     V("executor built through a temporary", FM_FILE, _REC, "executor = StreamFlowExecutor(new_workflow)", "wf = new_workflow\n    executor = StreamFlowExecutor(wf)", None),
     V("rename the wrapper and add logging", REC_FILE, DECORATOR, "wrapper", "_recovering", None, count=2),
     V("independent statements reordered in _recover", FM_FILE, _REC,
